@@ -57,7 +57,7 @@ Section compose.
     backends B = backends A -> tcp_f B = tcp_f A -> udp_f B = udp_f A ->
     exists Z, replay (diff A B) A = (Z, 0%nat) /\ norm Z = norm B.
   Proof.
-    intros ([_ HfkA] & _ & _ & _) ([HhcB HfkB] & _ & _ & HcB) Eb Et Eu.
+    intros ([_ HfkA] & _ & _ & _ & _) ([HhcB HfkB] & _ & _ & HcB & _) Eb Et Eu.
     unfold diff. rewrite Eb, Et, Eu. rewrite diff_backends_self, !diff_tfronts_self. cbn [app].
     pose (P := fun k => piece_removed fingerprint inames hc_valid steps k).
     (* 1-8: removed / added, per kind *)
@@ -115,7 +115,7 @@ Section compose.
     InvR A -> InvR B ->
     exists Z, replay (diff A B) A = (Z, 0%nat) /\ norm_set Z = norm_set B.
   Proof.
-    intros ([_ HfkA] & HbA & HtA & _) ([HhcB HfkB] & HbB & HtB & HcB).
+    intros ([_ HfkA] & HbA & HtA & _ & _) ([HhcB HfkB] & HbB & HtB & HcB & HgB).
     unfold diff.
     rewrite replay_app, (piece_removed fingerprint inames hc_valid steps LTcp (tcp_l A) (tcp_l B) A eq_refl).
     set (s1 := set_l LTcp A _).
@@ -152,10 +152,10 @@ Section compose.
     rewrite replay_app, (apply_diff_fronts fingerprint inames hc_valid steps true (https_f A) (https_f B) s15 eq_refl
                            (fun k f H => proj1 (HfkA true k f H)) (HfkB true)).
     set (s16 := set_f true s15 _).
-    destruct (piece_tfronts fingerprint inames hc_valid steps false (tcp_f A) (tcp_f B) s16 eq_refl (HtA false) (HtB false)) as (ct & Hrt & Hit & Hat).
+    destruct (piece_tfronts fingerprint inames hc_valid steps false (tcp_f A) (tcp_f B) s16 eq_refl (HtA false) (HtB false) (HgB false)) as (ct & Hrt & Hit & Hat).
     rewrite replay_app, Hrt.
     set (s17 := set_t false s16 ct).
-    destruct (piece_tfronts fingerprint inames hc_valid steps true (udp_f A) (udp_f B) s17 eq_refl (HtA true) (HtB true)) as (cu & Hru & Hiu & Hau).
+    destruct (piece_tfronts fingerprint inames hc_valid steps true (udp_f A) (udp_f B) s17 eq_refl (HtA true) (HtB true) (HgB true)) as (cu & Hru & Hiu & Hau).
     rewrite replay_app, Hru.
     set (s18 := set_t true s17 cu).
     destruct (piece_certs fingerprint inames hc_valid steps (certs A) (certs B) s18 eq_refl HcB) as (cc & Hrc & Hcc).
